@@ -366,6 +366,28 @@ impl<'a> Trainer<'a> {
             .build_model()
             .map_err(|e| VaporettoError::invalid_model(e.to_string()))?;
 
+        #[cfg(feature = "verif-hooks")]
+        crate::verif::with_trace(|t| {
+            *t = crate::verif::VerifTrainTrace::default();
+            let n = i32::try_from(model.labels().len()).unwrap();
+            t.raw_boundary = Some(crate::verif::VerifRawLearner {
+                labels: model.labels().to_vec(),
+                bias: (0..n).map(|i| model.label_bias(i)).collect(),
+                coef: self
+                    .feature_ids
+                    .iter()
+                    .map(|(f, &fid)| {
+                        let fid = i32::try_from(fid).unwrap();
+                        (
+                            verif_feature(f),
+                            (0..n).map(|i| model.feature_coefficient(fid, i)).collect(),
+                        )
+                    })
+                    .collect(),
+                num_features: model.num_features(),
+            });
+        });
+
         let wb_idx = i32::try_from(
             model
                 .labels()
@@ -399,7 +421,6 @@ impl<'a> Trainer<'a> {
 
         #[cfg(feature = "verif-hooks")]
         crate::verif::with_trace(|t| {
-            *t = crate::verif::VerifTrainTrace::default();
             t.bias = bias;
             t.labels = model.labels().to_vec();
         });
